@@ -1858,8 +1858,7 @@ def build_shifted(desc, which, ax, delta):
     elif which == 'hi':
         d['hi'][ax] = d['hi'][ax] + delta
     else:
-        d['c'][ax] = [v + delta for v in d['c'][ax]]
-        d['hi'][ax] = d['hi'][ax] + delta
+        d['c'][ax] = [v + delta for v in d['c'][ax]]  # the caller guarantees room below `hi`
     return d
 
 
@@ -1899,6 +1898,14 @@ def run_sets(desc, kind, rp):
     impl = None
     kindcase = 'none'
     if kind == 'eq':
+        which = rng.choice(['lo', 'hi', 'nodes'])
+        ax = rng.randrange(nd)
+        delta = F(1, 2 ** rng.randint(3, 12))
+        if which == 'nodes':
+            # only the GRID will differ: make room above the last node first (same set for p and r)
+            desc = build_shifted(desc, 'hi', ax, F(1))
+            his = desc['hi']
+            p = build(desc)
         q = build(desc)
         chk('fresh equal partition ==', val(lambda: p == q) is True)
         chk('fresh equal partition !=', val(lambda: p != q) is False)
@@ -1911,9 +1918,6 @@ def run_sets(desc, kind, rp):
             val(lambda: p.set.approx_equals('x', atol=1.0)) is False)
         chk('len', val(lambda: len(p)) == shape[0] and val(lambda: len(p.grid)) == shape[0] and
             val(lambda: len(p.set)) == nd, 'len(p), len(p.grid), len(p.set)')
-        which = rng.choice(['lo', 'hi', 'nodes'])
-        ax = rng.randrange(nd)
-        delta = F(1, 2 ** rng.randint(3, 12))
         tags.add('differs-in-' + which)
         r = build(build_shifted(desc, which, ax, delta))
         chk('different partition ==', val(lambda: p == r) is False and val(lambda: p != r) is True,
@@ -1923,10 +1927,12 @@ def run_sets(desc, kind, rp):
         chk('different partition approx_equals above atol', val(lambda: p.approx_equals(r, atol=float(delta / 2))) is False,
             '{} of axis {} moved by {}: approx_equals(atol=delta/2)'.format(which, ax, fs(delta)))
         if which == 'nodes':
+            chk('only the grid differs', val(lambda: p.set == r.set) is True)
             chk('grid == detects moved nodes', val(lambda: p.grid == r.grid) is False and
                 val(lambda: p.grid.approx_equals(r.grid, atol=float(delta / 2))) is False and
                 val(lambda: p.grid.approx_equals(r.grid, atol=float(delta * 2))) is True)
         else:
+            chk('only the set differs', val(lambda: p.grid == r.grid) is True)
             chk('set == detects moved limit', val(lambda: p.set == r.set) is False and
                 val(lambda: p.set.approx_equals(r.set, atol=float(delta / 2))) is False and
                 val(lambda: p.set.approx_equals(r.set, atol=float(delta * 2))) is True)
@@ -2196,6 +2202,32 @@ def run_sets(desc, kind, rp):
                 val(lambda: inter.contains_set(p.grid, atol=float(d / 2))) is False and
                 val(lambda: bool(inter.contains_all(p.grid))) is False and
                 val(lambda: bool(inter.contains_all(p.grid, atol=float(2 * d)))) is True)
+        g = p.grid
+        c0 = fl_(cs[0])
+        chk('RectGrid rejects malformed vectors',
+            raises(lambda: odl.RectGrid([float('nan')] + c0), ValueError) and
+            raises(lambda: odl.RectGrid(c0 + [float('inf')]), ValueError) and
+            raises(lambda: odl.RectGrid([c0, c0]), ValueError) and
+            raises(lambda: odl.RectGrid(list(reversed(c0 + [c0[-1] + 1.0]))), ValueError) and
+            raises(lambda: odl.RectGrid(c0 + [c0[-1]]), ValueError) and
+            raises(lambda: g.insert(0, 'x'), TypeError) and raises(lambda: p.insert(0, 'x'), TypeError) and
+            raises(lambda: g.points(order='X'), ValueError) and val(lambda: (['a'] * nd) in g) is False)
+        omin, omax = np.empty(nd), np.empty(nd)
+        chk('grid.min / max with out', val(lambda: g.min(out=omin) is omin and g.max(out=omax) is omax) is True and
+            [frac(v) for v in omin] == [c[0] for c in cs] and [frac(v) for v in omax] == [c[-1] for c in cs])
+        chk('identity shortcuts', val(lambda: (p == p) and p.approx_equals(p, atol=0.0) and (g == g) and
+                                      g.approx_equals(g, atol=0.0) and (p.set == p.set) and
+                                      p.set.approx_equals(p.set, atol=0.0) and g.is_subgrid(g) and
+                                      p.set.contains_set(p.set)) is True)
+        chk('uniform_grid_fromintv rejects',
+            raises(lambda: odl.uniform_grid_fromintv('x', 3), TypeError) and
+            raises(lambda: odl.uniform_grid_fromintv(odl.IntervalProd(0, float('inf')), 3), ValueError) and
+            raises(lambda: odl.uniform_grid_fromintv(p.set, [2] * nd, nodes_on_bdry=[True] * (nd + 2)), ValueError) and
+            raises(lambda: odl.uniform_partition_fromintv(p.set, [2] * nd, nodes_on_bdry=[True] * (nd + 2)), ValueError))
+        chk('nonuniform_partition rejects redundant / unknown arguments',
+            raises(lambda: odl.nonuniform_partition(*[fl_(c) for c in cs], max_pt=fl_(his), nodes_on_bdry=True), ValueError) and
+            raises(lambda: odl.nonuniform_partition(*[fl_(c) for c in cs], min_pt=fl_(los), nodes_on_bdry=True), ValueError) and
+            raises(lambda: odl.nonuniform_partition(*[fl_(c) for c in cs], bogus=1), TypeError))
         chk('RectPartition rejects other types / dimensions',
             raises(lambda: odl.RectPartition('x', p.grid), TypeError) and
             raises(lambda: odl.RectPartition(p.set, 'x'), TypeError) and
